@@ -738,11 +738,11 @@ class Server(BaseComponent):
 
     @handler('_write', priority=1)
     def _on_write(self, sock):
-        if self._buffers[sock]:
+        if self._buffers.get(sock):
             data = self._buffers[sock].popleft()
             self._write(sock, data)
 
-        if not self._buffers[sock]:
+        if not self._buffers.get(sock):  # .get: _write may have closed the socket and dropped its buffer
             if sock in self._closeq:
                 self._closeq.remove(sock)
                 self._close(sock)
